@@ -6,6 +6,7 @@ import (
 	"encoding/json"
 	"fmt"
 	"strings"
+	"unicode/utf8"
 
 	jsonata "github.com/blues/jsonata-go"
 
@@ -287,6 +288,47 @@ func c09Run(r *fw.Rec, c evalCase) {
 	r.Sample(o.Kind+":"+strings.SplitN(c.kind, ":", 2)[0], map[string]any{"prog": c.prog, "input": c.doc, "outcome": o.String()})
 }
 
+func invalidUTF8(v interface{}) bool {
+	switch x := v.(type) {
+	case string:
+		return !utf8.ValidString(x)
+	case []interface{}:
+		for _, e := range x {
+			if invalidUTF8(e) {
+				return true
+			}
+		}
+	case map[string]interface{}:
+		for k, e := range x {
+			if !utf8.ValidString(k) || invalidUTF8(e) {
+				return true
+			}
+		}
+	}
+	return false
+}
+
+// fnAsEmpty replaces function values in normalised data by empty strings.
+func fnAsEmpty(v interface{}) interface{} {
+	switch x := v.(type) {
+	case obs.Fn:
+		return ""
+	case []interface{}:
+		out := make([]interface{}, len(x))
+		for i, e := range x {
+			out[i] = fnAsEmpty(e)
+		}
+		return out
+	case map[string]interface{}:
+		out := make(map[string]interface{}, len(x))
+		for k, e := range x {
+			out[k] = fnAsEmpty(e)
+		}
+		return out
+	}
+	return v
+}
+
 func c10Run(r *fw.Rec, c evalCase) {
 	r.Begin(c.prog, c.doc)
 	r.Tag(c.kind)
@@ -340,6 +382,19 @@ func c10Run(r *fw.Rec, c evalCase) {
 		} else if merr != nil {
 			r.Violation("marshal-error", "json.Marshal of the result failed: "+merr.Error(), nil)
 			bad = true
+		} else if invalidUTF8(n) {
+			// a user-written matcher can cut a string inside a character, and
+			// $base64decode can produce arbitrary bytes: such strings have no
+			// JSON encoding of their own (encoding/json substitutes U+FFFD)
+			r.Count("results_with_strings_that_are_not_valid_UTF-8_(encoding_not_compared)", 1)
+		} else if _, foreign := obs.HasForeign(n); !foreign {
+			// the encoding must denote the value, with every function value
+			// (however it is held: by pointer or by value) standing for ""
+			var back interface{}
+			if err := json.Unmarshal(evalJSON, &back); err != nil || !obs.Equal(obs.Normalize(back, nil), fnAsEmpty(n)) {
+				r.Violation("encoding-denotes-other-value", "json.Marshal of the result gives "+clipb(evalJSON)+", which does not denote the result "+obs.ShowNorm(n)+" with function values as empty strings", nil)
+				bad = true
+			}
 		}
 	case "undefined", "error":
 		if o.Val != nil {
